@@ -206,7 +206,7 @@ def run_unit(name, features=None, variant=None, seed=0, canary=True, threads=8):
     else:
         result["status"] = "ok"
     # expected functions present?
-    stub_names = set(k.split("::")[-1].split("[")[0] for k in u.stubbed)
+    stub_names = set(v.get("fname") or k.split("::")[-1].split("[")[0] for k, v in u.stubbed.items())
     missing = [f for f in u.expected if f not in stub_names and not any(k.endswith("::" + f) for k in funcs)]
     if missing and result["status"] == "ok":
         result["status"] = "undecided"
